@@ -285,6 +285,7 @@ static std::string one_line(std::string s) {
 }
 
 static Ctx g_ctx;
+static std::vector<std::vector<uint8_t>> g_window;  // inputs since the last clean leak check
 static std::string g_stats_path;
 
 #ifndef VERIF_FUZZ_DRIVER
@@ -530,7 +531,6 @@ int main(int argc, char** argv) {
             }
         }
         std::vector<uint8_t> v;
-        std::vector<std::vector<uint8_t>> window;
         double last_leak_check = 0;
         size_t distinct_before = 0;
         for (; done < cases; ++done) {
@@ -552,25 +552,37 @@ int main(int argc, char** argv) {
 #ifdef VERIF_HAVE_LSAN
             // leak oracle: a leaked block stays leaked, so the window of candidate inputs is handed to the
             // parent, which replays each one in a fresh process (LeakSanitizer runs at exit there)
-            window.push_back(v);
-            if (window.size() >= 256 && (done & 63) == 0 && elapsed() - last_leak_check > 1.5) {
+            g_window.push_back(v);
+            if (g_window.size() >= 256 && (done & 63) == 0 && elapsed() - last_leak_check > 1.5) {
                 last_leak_check = elapsed();
                 if (__lsan_do_recoverable_leak_check()) {
                     std::string wp = work + "/leakwindow." + std::to_string(worker) + ".bin";
                     FILE* f = fopen(wp.c_str(), "wb");
                     if (f) {
-                        for (auto& x : window) { uint32_t n = (uint32_t)x.size(); fwrite(&n, 4, 1, f); if (n) fwrite(x.data(), 1, n, f); }
+                        for (auto& x : g_window) { uint32_t n = (uint32_t)x.size(); fwrite(&n, 4, 1, f); if (n) fwrite(x.data(), 1, n, f); }
                         fclose(f);
                     }
                     rc = 5;
                     ++done;
                     break;
                 }
-                window.clear();
+                g_window.clear();
             }
 #endif
         }
     }
+#ifdef VERIF_HAVE_LSAN
+    // final leak check so that a leak after the last periodic check is attributed to an input as well
+    if (rc == 0 && mode == "run" && !g_window.empty() && __lsan_do_recoverable_leak_check()) {
+        std::string wp = work + "/leakwindow." + std::to_string(worker) + ".bin";
+        FILE* f = fopen(wp.c_str(), "wb");
+        if (f) {
+            for (auto& x : g_window) { uint32_t n = (uint32_t)x.size(); fwrite(&n, 4, 1, f); if (n) fwrite(x.data(), 1, n, f); }
+            fclose(f);
+        }
+        rc = 5;
+    }
+#endif
     ctx.dump(g_stats_path.c_str());
     {
         std::string mp = work + "/meta." + std::to_string(worker) + ".json";
@@ -579,6 +591,11 @@ int main(int argc, char** argv) {
             fprintf(f, "{\"done\": %" PRIu64 ", \"budget_hit\": %s, \"elapsed\": %.3f, \"rc\": %d}\n", done, budget_hit ? "true" : "false", elapsed(), rc);
             fclose(f);
         }
+    }
+    if (rc == 5) {
+        // skip LeakSanitizer's at-exit check (it would replace the exit status): the parent bisects the window
+        fflush(nullptr);
+        _exit(5);
     }
     return rc;
 }
